@@ -41,6 +41,8 @@ impl Kind {
                 ("setitem_neg", "y[-1] = 9"),
                 ("iadd", "y += [4]"),
                 ("setitem_aug", "y[0] += 5"),
+                ("extend_self", "y.extend(y)"),
+                ("iadd_self", "y += y"),
             ],
             Kind::Dict => &[
                 ("setitem_new", "y[4] = 40"),
@@ -54,6 +56,8 @@ impl Kind {
                 ("clear", "y.clear()"),
                 ("ior", "y |= {4: 40}"),
                 ("setitem_aug", "y[1] += 5"),
+                ("ior_self", "y |= y"),
+                ("update_self", "y.update(y)"),
             ],
             Kind::Set => &[
                 ("add", "y.add(4)"),
@@ -62,6 +66,7 @@ impl Kind {
                 ("pop", "y.pop()"),
                 ("clear", "y.clear()"),
                 ("update", "y.update([4])"),
+                ("update_self", "y.update(y)"),
             ],
         }
     }
